@@ -39,15 +39,17 @@ Record dnode := mkD {
   kind : dkind;
   var : option varinfo;      (* Node.var : the Var this node is the dist_node of, if any *)
   per_obs : bool;            (* Dist.per_obs *)
-  obs : list Q               (* init_dist().log_prob(at.value), flattened, at the current values *)
+  obs : sval                 (* init_dist().log_prob(at.value) at the current values: a 0-d result is a
+                                Scalar, an array result is Arr (flattened) *)
 }.
 
 (* Dist.update / TransientDist.value:
      log_prob = self.init_dist().log_prob(self.at.value)
      if not self.per_obs and hasattr(log_prob, "sum"): log_prob = log_prob.sum()
+   (the .sum() of a 0-d array is the same 0-d array)
    NoDist.value = 0.0 *)
-Definition dist_value (po : bool) (logp : list Q) : sval :=
-  if po then Arr logp else Scalar (pysum logp).
+Definition dist_value (po : bool) (logp : sval) : sval :=
+  if po then logp else Scalar (reduce logp).
 
 Definition stored (d : dnode) : sval :=
   match kind d with
@@ -99,8 +101,10 @@ Definition model_log_prior (b : built) : sval := total (user_prior b) sel_prior 
 Definition qsum (l : list Q) : Q := fold_right Qplus 0 l.
 
 (* the log-density of one distribution node at the current values: sum over its observations *)
+Definition sval_total (v : sval) : Q :=
+  match v with Scalar q => q | Arr l => qsum l end.
 Definition node_logdens (d : dnode) : Q :=
-  match kind d with KNoDist => 0 | _ => qsum (obs d) end.
+  match kind d with KNoDist => 0 | _ => sval_total (obs d) end.
 
 Definition is_observed (d : dnode) : bool :=
   match var d with Some v => observed v | None => false end.
@@ -126,8 +130,8 @@ Definition same_but_per_obs (d d' : dnode) : Prop :=
 
 (* ---- the variable-centred view (how the code actually walks for log_lik / log_prior) ------- *)
 (* a variable owns its _dist_node (possibly NoDist); Dist nodes without variable are listed apart *)
-Record vrec := mkV { v_info : varinfo; v_kind : dkind; v_per_obs : bool; v_obs : list Q }.
-Record dfree := mkF { f_kind : dkind; f_per_obs : bool; f_obs : list Q }.
+Record vrec := mkV { v_info : varinfo; v_kind : dkind; v_per_obs : bool; v_obs : sval }.
+Record dfree := mkF { f_kind : dkind; f_per_obs : bool; f_obs : sval }.
 
 Definition v_node (v : vrec) : dnode := mkD (v_kind v) (Some (v_info v)) (v_per_obs v) (v_obs v).
 Definition f_node (f : dfree) : dnode := mkD (f_kind f) None (f_per_obs f) (f_obs f).
